@@ -944,6 +944,11 @@ def index_case(ctx, rng):
         nonlocal nsupplied, nabsent
         ix = st.create_index(schema)
         for c in range(ncommits):
+            if c and (c + ncommits) % 2 == 1:
+                # later commits (and the reads after them) go through a re-opened index: field and column types then
+                # come from the schema pickled in the TOC
+                ix = st.open_index()
+                ctx.count("idx.reopened_between_commits")
             merge_kind = rng.choice(["nomerge", "nomerge", "default", "optimize"])
             ckw = {"nomerge": {"merge": False}, "default": {}, "optimize": {"optimize": True}}[merge_kind]
             ops = []
